@@ -236,33 +236,28 @@ Proof.
       * cbn [tset m1 dst_of]. zcase.
 Qed.
 
-(* table.move for ALL int64 f, e, t, same table or another one: either the
+(* (the same-position shortcut of the original code is gone: f = t on the same
+   table performs the gets and sets like any other move, as the reference does)
+   table.move for ALL int64 f, e, t, same table or another one: either the
    manual's simultaneous assignment (overlap included) or — exactly when the
    element count or the last destination index is not representable — an
    error that leaves both tables untouched. *)
 Theorem move_correct f e t d st :
   in64 f -> in64 e -> in64 t ->
-  if move_ok (tid_eqb d T1) f e t
+  if move_ok f e t
   then exists st', run (move_im f e t d) st = (ORet tt, st') /\ lens_kept st st' /\ other_kept st st' d /\
                    forall k, dst_of st' d k = move_spec (m1 st) (dst_of st d) f e t k
   else exists err, run (move_im f e t d) st = (OFail err, st).
 Proof.
   unfold in64, minint, maxint. intros Hf He Ht.
   unfold move_im, move_ok, move_spec.
-  destruct ((f >? e) || (f =? t) && tid_eqb d T1) eqn:A.
+  destruct (f >? e) eqn:A.
   - (* nothing to do *)
-    replace ((f >? e) || tid_eqb d T1 && (f =? t) || (e - f + 1 <=? maxint) && (t + (e - f) <=? maxint)) with true.
-    2:{ symmetry. apply orb_true_iff in A. destruct A as [A|A]; [rewrite A; reflexivity|].
-        apply andb_true_iff in A. destruct A as [A1 A2]. rewrite A1, A2. cbn. rewrite orb_true_r. reflexivity. }
+    cbn [orb].
     exists st. split; [reflexivity|]. split; [split; reflexivity|]. split; [destruct d; reflexivity|].
-    intros k. apply orb_true_iff in A. destruct A as [A|A].
-    + rewrite Z.gtb_ltb in A. zb. zcase.
-    + apply andb_true_iff in A. destruct A as [A1 A2]. zb. subst t.
-      destruct d; [|discriminate]. cbn [dst_of]. zcase.
-  - apply orb_false_iff in A. destruct A as [A1 A2]. rewrite A1.
-    rewrite Z.gtb_ltb in A1. apply Z.ltb_ge in A1. rename A1 into Hfe.
-    replace (tid_eqb d T1 && (f =? t)) with false by (rewrite andb_comm; symmetry; exact A2).
-    cbn [orb]. clear A2.
+    intros k. rewrite Z.gtb_ltb in A. zb. zcase.
+  - rewrite Z.gtb_ltb in A. apply Z.ltb_ge in A. rename A into Hfe.
+    cbn [orb].
     assert (HB : (f <=? 0) && (wrap (f + maxint) <=? e) = negb (e - f + 1 <=? 2^63 - 1)).
     { destruct (f <=? 0) eqn:F0; cbn [andb].
       - apply Z.leb_le in F0. rewrite (wrap_i64 (f + maxint)) by (unfold i64, maxint; lia). unfold maxint.
